@@ -1,5 +1,6 @@
 """C20 — saved files and surrogates reproduce what they were made from."""
 import io
+import math
 import os
 import shutil
 import sys
@@ -194,6 +195,7 @@ def check_surrogate(case):
             else:
                 s.trainDrivingForce(xt, Tt if len(Tt) > 1 else Tt[0], logX=case["logX"])
             d = s.drivingForceData["BETA"]
+            _requested_points(out, "driving force", np.ravel(d["x"]), np.ravel(d["T"]), xt, np.array(case["Tpoint"]) if case.get("pointwise") else np.array(Tt, dtype=float), bool(case.get("pointwise")))
             dg, xp = s.getDrivingForce(d["x"], d["T"])
             rng = max(float(np.ptp(d["dg"])), 1e-300)
             if not np.allclose(np.ravel(dg), np.ravel(d["dg"]), rtol=0, atol=1e-6 * rng):
@@ -206,6 +208,7 @@ def check_surrogate(case):
             else:
                 s.trainDiffusivity(xt, T2, logX=case["logX"])
             d = s.diffusivityData["ALPHA"]
+            _requested_points(out, "diffusivity", np.ravel(d["x"]), np.ravel(d["T"]), xt, np.array(case["Tpoint"]) if case.get("pointwise") else np.array(T2, dtype=float), bool(case.get("pointwise")))
             D = s.getInterdiffusivity(d["x"], d["T"])
             ref = np.ravel(d["dnkj"])
             # the model is fitted on the cube root
@@ -262,6 +265,17 @@ def check_surrogate(case):
     out.label("trained_" + "+".join(trained) if trained else "untrained", case["kernel"], "pointwise" if case.get("pointwise") else ("ic_T_grid" if case.get("ic_grid") and len(Tt) > 1 and "ic" in trained else "broadcast"))
     out.nt(0 < len(trained) < 3)
     return out
+
+
+def _requested_points(out, what, xs, Ts, xt, Tt, pointwise):
+    """The training set is the one the user asked for: the grid of all (x_i, T_j) with broadcasting (documented: "will create grid
+    of points over x and T"), the paired points without.  (Reproducing a training set that is not the requested one proves nothing.)"""
+    want = [(float(a), float(b)) for a, b in zip(xt, Tt)] if pointwise else [(float(a), float(b)) for b in Tt for a in xt]
+    got = [(float(a), float(b)) for a, b in zip(xs, Ts)]
+    key = lambda p: (round(math.log10(max(p[0], 1e-300)), 9), round(p[1], 6))
+    if sorted(map(key, want)) != sorted(map(key, got)):
+        out.fail("training_set_not_requested", "%s surrogate: %d training points stored for %d requested (%s of %d compositions and %d temperatures)"
+                 % (what, len(got), len(want), "pairs" if pointwise else "grid", len(xt), len(Tt)), quantity=what)
 
 
 class _ToyMultiSurr(toy.ToyMulti):
@@ -365,6 +379,15 @@ def check_surrogate_multi(case):
         except np.linalg.LinAlgError as e:     # a numerically singular interpolation matrix is refused by scipy; the statement is about trained surrogates
             out.label("training_refused:" + type(e).__name__)
             return out
+        # the training set is the requested one: the full grid with broadcasting, the paired points without
+        for grp, data in (("df", getattr(s, "drivingForceData", {}).get("BETA")), ("diff", getattr(s, "diffusivityData", {}).get("ALPHA")), ("curv", getattr(s, "curvatureData", {}).get("BETA"))):
+            if grp in trained and data is not None:
+                pts = [(xx, float(tt)) for tt in Tt for xx in xt] if bc else list(zip(xt, [float(v) for v in Tt]))
+                if grp == "curv":       # points at which the backend has no two-phase equilibrium are documented to be dropped
+                    pts = [q for q in pts if th.curvatureFactor(np.asarray(q[0], dtype=float), q[1]) is not None]
+                want_n = len(pts)
+                if len(np.ravel(data["T"])) != want_n:
+                    out.fail("training_set_not_requested", "%s surrogate: %d training points stored for %d requested (%s of %d compositions and %d temperatures)" % (grp, len(np.ravel(data["T"])), want_n, "grid" if bc else "pairs", len(xt), len(Tt)), quantity=grp)
         if "curv" in trained and np.min(np.asarray(s.curvatureData["BETA"]["xEqAlpha"], dtype=float)) <= 1e-12:
             # the analytic backend ran a tie-line into the corner of the simplex (a solute exhausted: composition 0 or 1e-16);
             # a real backend never returns that, and its logarithm cannot be interpolated
@@ -462,6 +485,8 @@ def _surr_multi_case(draw):
     if bc:
         nx = draw(st.integers(4, 7))
         Ttrain = [T0, T0 + 30.0, T0 - 30.0][:nT]
+        if draw(st.integers(0, 4)) == 4:
+            Ttrain = [float(v) for v in np.linspace(T0 - 30.0, T0 + 30.0, nx)]       # square grid: as many temperatures as compositions
     else:
         nx = draw(st.integers(6, 10))
         Ttrain = [T0 + (-1) ** k * (8.0 + 4.0 * k + draw(st.floats(0.0, 3.0))) for k in range(nx)]    # point-wise lists: distinct temperatures that zig-zag, so the points are never collinear in (x, T)
@@ -514,6 +539,8 @@ def _surr_case(draw):
     lo, hi = xeq * 1.5, min(xeq * 40, 0.05)
     xtrain = list(np.logspace(np.log10(lo), np.log10(hi), nx) if draw(st.booleans()) else np.linspace(lo, hi, nx))
     Ttrain = [T0] if draw(st.booleans()) else [T0 - 40.0, T0, T0 + 40.0][: draw(st.integers(2, 3))]
+    if draw(st.integers(0, 4)) == 4:
+        Ttrain = [float(v) for v in np.linspace(T0 - 40.0, T0 + 40.0, nx)]        # square grid: as many temperatures as compositions
     train = draw(st.lists(st.sampled_from(["df", "diff", "ic"]), min_size=0, max_size=3, unique=True))
     pointwise = draw(st.integers(0, 3)) == 3
     Tpoint = [T0 + (-1) ** k * (8.0 + 4.0 * k + draw(st.floats(0.0, 3.0))) for k in range(nx)] if pointwise else None      # zig-zag: never collinear with the increasing compositions
